@@ -3,6 +3,7 @@ package sim
 import (
 	"fmt"
 	"hash/fnv"
+	"os"
 	"strings"
 	"time"
 )
@@ -21,6 +22,8 @@ type EvLog struct {
 	shapeH uint64 // hash of the abstract stimulus sequence (kind, endpoint)
 }
 
+var hashDebug = os.Getenv("VERIF_HASHDBG") != ""
+
 func NewEvLog(now func() time.Duration) *EvLog {
 	return &EvLog{h: 14695981039346656037, shapeH: 14695981039346656037, Keep: 150, now: now}
 }
@@ -38,6 +41,9 @@ func (l *EvLog) mix(s string) {
 func (l *EvLog) Logf(format string, args ...any) {
 	line := fmt.Sprintf("%12.6fms ", float64(l.now())/1e6) + fmt.Sprintf(format, args...)
 	l.mix(line)
+	if hashDebug {
+		line = fmt.Sprintf("[%016x] %s", l.h, line)
+	}
 	l.keep(line)
 }
 
